@@ -104,3 +104,40 @@ def canary_sign():
     r = get_n_bit_representations(x, 16)
     u = x % 2 ** 16
     check("signed_off_by_one", r[3] == str(ite(u > 2 ** 15, u - 2 ** 16, u)))
+
+
+# ---- memory tables: exactly the words of the backing store that contain a written byte, ascending, current values
+from fixedint import UInt8
+from architecture_simulator.uarch.memory.memory import Memory, AddressingType
+from architecture_simulator.simulation.riscv_simulation import RiscvSimulation
+
+LO = 2 ** 14
+
+
+@unit("C17/Memory.wordwise_repr-and-data-memory-table")
+def memory_table():
+    sim = RiscvSimulation()
+    m = sim.state.memory
+    keys = [LO + 9, LO, LO + 1, LO + 5, LO + 64, 2 ** 32 - 1]          # written bytes, in insertion (not address) order
+    vals = {}
+    for a in keys:
+        vals[a] = sym_fixed("b%d" % (a % 1000), UInt8)
+        m.memory_file[a] = vals[a]
+    before = snapshot(sim)
+    t = m.wordwise_repr()
+    words = sorted(set([a - a % 4 for a in keys]))
+    check("lists_exactly_the_words_with_a_written_byte", sorted(t.keys()) == words)
+    ok = True
+    for w in words:
+        v = 0
+        for k in range(4):
+            if (w + k) in vals:
+                v = v + int(vals[w + k]) * 256 ** k
+        e = expected(v, 32)
+        ok = ok & (t[w][0] == e[0]) & (t[w][1] == e[1]) & (t[w][2] == e[2]) & (t[w][3] == e[3])
+    check("shows_the_current_little_endian_word_values", ok)
+    rows = sim.get_data_memory_entries()
+    check("table_is_ascending_with_true_addresses", [r[0][0] for r in rows] == words
+          and all_of([rows[i][0][1] == "0x" + format(words[i], "08X") for i in range(len(words))])
+          and all_of([rows[i][1] == t[words[i]] for i in range(len(words))]))
+    check_same("pure", before, snapshot(sim))
